@@ -79,6 +79,9 @@ def make_scenario(rng, knobs):
                 prog.setdefault('behaviour', {})[name] = kind
     scenario = {'instances': specs, 'options': options, 'model': model, 'rules_xml': gen.rules_xml(model),
                 'sched': gen.gen_sched(rng, specs, knobs.get('profiles')), 'behaviours': behaviours}
+    if knobs.get('handshake_skew'):
+        # the XML-RPCs of a handshake take time (see workloads/membership.py)
+        scenario['sched'] = dict(scenario['sched'], handshake_skew=knobs['handshake_skew'])
     return scenario
 
 
